@@ -100,13 +100,33 @@ def acc_loop_separated(case, clause, detail, f):
 
 
 def acc_routine_enclosed(case, clause, detail, f):
-    acc = _accepted(case)
-    first = next((i for i, t in enumerate(acc) if t == "ACCRoutineTrans"), None)
+    # ACCRoutineTrans, then a region transformation over a top-level range: the
+    # routine directive ends up inside the region.  Consequence in the same
+    # written tree: an orphaned `acc loop` is no longer covered by a routine
+    # directive in the specification part (AccLoopOutsideCompute can only be
+    # violated with an accepted ACCRoutineTrans if the directive was displaced).
+    acc = [(t, o) for t, o, s in zip(case["trans"], case["ops"], case["steps"])
+           if s == "accepted"]
+    first = next((i for i, (t, _) in enumerate(acc) if t == "ACCRoutineTrans"), None)
     region = ("OMPParallelTrans", "OMPSingleTrans", "OMPMasterTrans",
               "OMPTargetTrans") + ACC_REGION_TRANS
-    return (_rule(case, clause, "AccRoutineNotInSpecificationPart", ("acc_routine",))
-            and first is not None
-            and any(t.split(":")[0] in region for t in acc[first + 1:]))
+    enclosed = first is not None and any(
+        t.split(":")[0] in region and o[3] == [] for t, o in acc[first + 1:])
+    return enclosed and (
+        _rule(case, clause, "AccRoutineNotInSpecificationPart", ("acc_routine",))
+        or _rule(case, clause, "AccLoopOutsideCompute", ("acc_loop",)))
+
+
+def acc_enter_data_before_routine(case, clause, detail, f):
+    # ACCEnterDataTrans inserts `acc enter data` at position 0 of the routine
+    # (or before the first compute construct), i.e. BEFORE an existing
+    # `acc routine` directive, which is then no longer in the specification part
+    acc = _accepted(case)
+    first = next((i for i, t in enumerate(acc) if t == "ACCRoutineTrans"), None)
+    return (first is not None and "ACCEnterDataTrans" in acc[first + 1:]
+            and (_rule(case, clause, "AccRoutineNotInSpecificationPart",
+                       ("acc_routine",))
+                 or _rule(case, clause, "AccLoopOutsideCompute", ("acc_loop",))))
 
 
 def omp_worksharing_closely_nested(case, clause, detail, f):
@@ -169,6 +189,7 @@ MATCHERS = {
     "c10_acc_data_inside_compute": acc_data_inside_compute,
     "c10_acc_loop_separated": acc_loop_separated,
     "c10_acc_routine_enclosed": acc_routine_enclosed,
+    "c10_acc_enter_data_before_routine": acc_enter_data_before_routine,
     "c10_omp_worksharing_closely_nested": omp_worksharing_closely_nested,
     "c10_omp_master_closely_nested": omp_master_closely_nested,
     "c10_omp_inside_loop_construct": omp_inside_loop_construct,
